@@ -136,7 +136,14 @@ def run(ctx):
                 n_loops += 1
                 cl = H.consuming_loop(x)
                 good = cl is not None and cl["next"].get("callee") in H.NEXT_CALLS
-                ctx.oblige("C04|loop|%s" % fn["path"], good, "a loop in %s is not an input-consuming `while let Some(_) = next_key()/next_element()?` loop: termination is not evident" % fn["path"], cfg=cfg, where=H.line(x))
+                why = ""
+                if not good:
+                    # other spellings of the same loop (explicit match on next_*(), helper functions): decided on the path summaries
+                    from . import loops as L
+                    problems, _n = L.drains(F, fn)
+                    good = not problems
+                    why = "; ".join(problems[:2])
+                ctx.oblige("C04|loop|%s" % fn["path"], good, "a loop in %s is not an input-consuming loop over next_key()/next_element() (%s): termination is not evident" % (fn["path"], why), cfg=cfg, where=H.line(x))
         ctx.floor("input-consuming loops", n_loops, 15, cfg=cfg)
         # every other public decodable type (responses, options, enums ... decoded with cbor_deserialize::<T>): their
         # Deserialize / Visitor bodies (generic in the deserializer, hence no mono root) contain no panic-capable construct at all
